@@ -630,7 +630,7 @@ func checkCmd(opts *RunOpts, args []string) int {
 	}
 	if run.HeRan {
 		kl, vl, cv := boundedListVerdict(opts, prop, known, "bounded.helpers.truth", "c20_helpers_known.txt", run.HeFailing, run.HeTotal,
-			"wait / ask helpers of pkg/helpers on the real machine: Cant* / Ask* for a possible and a vetoed Add / Remove, Add1Sync / Remove1Sync executed at once, queued then accepted, queued then vetoed, Add1Async with the awaited state activated by a relation, by a handler synchronously, by a goroutine later, and a rejected mutation; every helper on a disposed machine; 3 s watchdog on every call",
+			"wait / ask helpers of pkg/helpers on the real machine: Cant* / Ask* for a possible and a vetoed Add / Remove, Add1Sync / Remove1Sync executed at once, queued then accepted, queued then vetoed, Add1Async with the awaited state activated by a relation, by a handler synchronously, by a goroutine later, and a rejected mutation; WaitForAny / WaitForAll / WaitForErrAny / WaitForErrAll with the channel closing, a timeout and a machine error during the wait; every helper on a disposed machine; 3 s watchdog on every call",
 			"helpers that do not answer what happened to the machine", "return something other than what happened to the machine, or block", nil)
 		if kl != "" {
 			knownLines = append(knownLines, kl)
